@@ -65,8 +65,18 @@ digits, negative, 0, 99999, superscript digits, empty, 1e9, hex) or a hostile zo
 date, epoch seconds, ...); If-None-Match from a pool of malformed entity-tag lists.  Oracle: never 5xx, one of the statement's response
 shapes, and the range semantics of the request hold; 304 vs plain response is EITHER for these values.  If-Range is not generated:
 StaticFileHandler does not implement it and the statement is silent about it.
+
+  M11 StaticFileHandler._stat memoises os.stat results in a class-level dict keyed by absolute path (lifecycle mutant)
+       -> caught at seeds 1, 2, 3 by the new ``mutate`` part (C27.framing / C27.content_length: stale size after the file was replaced);
+          MISSED before: every fixture file was immutable.  replays/C27/file-replaced-between-requests.json pins it.
+
+Part ``mutate`` (reuse dimension): histories of 2-3 steps on ONE path: write the file (size 0..300, new bytes, mtime shifted by 0 / 1 /
++-100 s / 1 day; os.replace, no reset()), then the usual request triple with Range / If-None-Match / If-Modified-Since, judged against
+the file as it is at that step.  Only the version hash is documented to be cached (static_hash_cache), so conditionals use the ETag the
+server itself sends at that step.
 """
 import email.utils
+import os
 import re
 import time
 
@@ -556,8 +566,14 @@ def outcome_of(ctx, r, data, detail, sig):
 
 
 def run_case(ctx, case):
-    n, rng, inm, ims = case["n"], case["range"], case["inm"], case["ims"]
-    root, name, data, mtime = staticfix.range_file(n)
+    root, name, data, mtime = staticfix.range_file(case["n"])
+    labels, nontrivial = exercise(ctx, case, root, name, data, mtime)
+    ctx.note(case, labels, nontrivial)
+
+
+def exercise(ctx, case, root, name, data, mtime):
+    """One request triple (baseline GET, GET, HEAD) against the file as it is NOW; -> (labels, nontrivial)."""
+    n, rng, inm, ims = len(data), case["range"], case["inm"], case["ims"]
     app = app_for(root)
     labels = set()
     cls, spec, sub = classify(rng)
@@ -574,14 +590,14 @@ def run_case(ctx, case):
     # ---- baseline: no Range, no conditionals -> 200 whole file; supplies the ETag
     base = fetch(ctx, app, "GET", name, [], "baseline")
     if base is None:
-        return ctx.note(case, labels | {"unparsed"}, False)
-    bdetail = {"n": n, "req": "baseline", "code": base.code}
+        return labels | {"unparsed"}, False
+    bdetail = {"n": n, "step": case.get("step"), "earlier_sizes": case.get("earlier_sizes"), "req": "baseline", "code": base.code}
     if outcome_of(ctx, base, data, bdetail, None) != ("200",):
         ctx.fail("C27.baseline_not_200", bdetail)
     etag = base.get("Etag")
     if (inm is not None) and not etag:
         ctx.fail("C27.no_etag", bdetail)
-        return ctx.note(case, labels, False)
+        return labels, False
 
     headers = []
     if rng is not None:
@@ -631,8 +647,8 @@ def run_case(ctx, case):
     g = fetch(ctx, app, "GET", name, headers, "get")
     h = fetch(ctx, app, "HEAD", name, headers, "head")
     if g is None or h is None:
-        return ctx.note(case, labels | {"unparsed"}, False)
-    detail = {"n": n, "headers": headers, "range_class": cls, "invalid_sub": sub, "cond": cond, "code": g.code,
+        return labels | {"unparsed"}, False
+    detail = {"n": n, "step": case.get("step"), "earlier_sizes": case.get("earlier_sizes"), "headers": headers, "range_class": cls, "invalid_sub": sub, "cond": cond, "code": g.code,
               "content_range": g.get("Content-Range"), "allowed": sorted(allowed)}
     got = outcome_of(ctx, g, data, detail, None)
     labels.add("s%s" % g.code)
@@ -654,6 +670,63 @@ def run_case(ctx, case):
                                           only_get=[x for x in hdrs(g) if x not in hdrs(h)],
                                           only_head=[x for x in hdrs(h) if x not in hdrs(g)]))
     nontrivial = (spec is not None and boundary(spec, n)) or (cls == "invalid" and sub in ("underscore", "sign", "unicode_space", "non_ascii"))
+    return labels, nontrivial
+
+
+# --------------------------------------------------------------------------- the file changes between requests
+# Only the version hash (ETag / ?v=) is documented to be cached (``static_hash_cache``); size, mtime and content are those of the
+# file at request time.  A history serves one path, REPLACES the file (other length, other bytes, other mtime) without any
+# reset, and serves it again: every request triple is judged against the file as it is at that moment.  Conditionals use the ETag
+# the server itself sends at that step, so a (documented) stale hash cannot cause a false alarm.
+MUT_NAME = "mutable.bin"
+
+
+def _write_mutable(root, n, salt, mtime):
+    data = bytes((i * 11 + salt) % 251 for i in range(n))
+    p = os.path.join(root, MUT_NAME)
+    tmp = p + ".new"
+    with open(tmp, "wb") as f:
+        f.write(data)
+    os.utime(tmp, (mtime, mtime))
+    os.replace(tmp, p)
+    return data
+
+
+@st.composite
+def mutate_case_s(draw):
+    steps = []
+    for k in range(draw(st.sampled_from([2, 2, 3]))):
+        n = draw(st.one_of(st.integers(0, 60), st.sampled_from([0, 1, 10, 25, 300])))
+        r = draw(st.one_of(st.none(), range_s(n), range_s(n), range_s(n)))
+        rng = r[0] if r is not None else None
+        inm = draw(st.sampled_from([None, None, None, "match", "nomatch"]))
+        ims = draw(st.one_of(st.none(), st.none(), st.sampled_from(["equal", "before", "after"]),
+                             st.tuples(st.sampled_from(["before", "equal", "after"]), st.sampled_from(IMS_FMTS), st.sampled_from(["GMT", "", "+0100"]))))
+        steps.append({"n": n, "salt": draw(st.integers(0, 5)), "dt": draw(st.sampled_from([0, 1, 100, -100, 86400])),
+                      "range": rng, "inm": inm, "ims": ims})
+    return {"steps": steps}
+
+
+def run_mutating(ctx, case):
+    root = staticfix.range_file(1)[0]
+    StaticFileHandler.reset()  # once per history
+    labels, nontrivial = {"file_replaced_between_requests"}, False
+    mtime = staticfix.RANGE_MTIME
+    prev_n = None
+    for k, step in enumerate(case["steps"]):
+        mtime = mtime + step["dt"] if k else mtime
+        data = _write_mutable(root, step["n"], step["salt"], mtime)
+        if prev_n is not None and prev_n != len(data):
+            labels.add("size_changed")
+            if step["range"] is not None:
+                labels.add("range_after_size_change")
+                nontrivial = True
+        sub = {"n": step["n"], "range": step["range"], "inm": step["inm"], "ims": step["ims"], "step": k,
+               "earlier_sizes": [s2["n"] for s2 in case["steps"][:k]]}
+        labs, nt = exercise(ctx, sub, root, MUT_NAME, data, mtime)
+        labels |= labs
+        nontrivial = nontrivial or nt
+        prev_n = len(data)
     ctx.note(case, labels, nontrivial)
 
 
@@ -706,17 +779,18 @@ def run_grammar(ctx, s):
     ctx.note(s, labels, cls == "invalid" and sub in ("underscore", "sign", "unicode_space", "non_ascii"))
 
 
-PARTS = {"main": run_case, "grid": run_case, "grammar": run_grammar}
+PARTS = {"main": run_case, "grid": run_case, "grammar": run_grammar, "mutate": run_mutating}
 REQUIRED = ["suffix", "end_beyond", "start_eq_size", "invalid_underscore", "invalid_sign", "multi_range", "etag_304", "head",
             "g_invalid_non_ascii", "multi_chunk_file", "cond_and_range_either", "inverted_either",
             "ims_fmt_rfc850", "ims_fmt_asctime", "ims_naive_no_inm", "ims_zone_+0100",
-            "ims_hostile_no_inm", "inm_hostile"]
+            "ims_hostile_no_inm", "inm_hostile", "range_after_size_change"]
 
 
 def main(ctx):
     ctx.run_replays(PARTS)
     ctx.explore(case_s(), run_case, ctx.n(3000, 120000), name="main")
     ctx.enumerate(grid_cases(40 if ctx.thorough else 6), run_case, name="grid")
+    ctx.explore(mutate_case_s(), run_mutating, ctx.n(500, 30000), name="mutate")
     ctx.explore(grammar_s, run_grammar, ctx.n(3000, 160000), name="grammar")
     for lab in REQUIRED:
         if not ctx.violations and not ctx.labels.get(lab):
